@@ -725,7 +725,13 @@ fn gen_target(r: &mut Rng) -> String {
             }
             s
         }
-        1 => format!("/{}", "x".repeat(r.range(200, 1500))),
+        1 => match r.below(3) {
+            0 => format!("/{}", "x".repeat(r.range(200, 1500))),
+            // (round 5, after seed C18-10) a LONG request head: a well-formed GET stays well-formed when its path or query
+            // is tens of kilobytes long (still far below hyper's own default limits) — it must be served like any other
+            1 => format!("/metrics?{}", "q=0123456789abcdef&".repeat(r.range(600, 3000))),
+            _ => format!("/{}", "seg/".repeat(r.range(3000, 12000))),
+        },
         2 => {
             // `/health` and near misses with a query / fragment / authority around them
             let core = r.pick_str(&["/health", "/health", "/health/", "/healt", "/Health", "/", ""]);
